@@ -28,6 +28,13 @@ const preludeInt = `
 `
 
 func (w *World) queryText(o *Obligation, wantModel bool) string {
+	return w.queryTextV(o, wantModel, false)
+}
+
+// queryTextV: focused=true drops quantified assumptions that are (a) other
+// loop invariants than o.Focus and (b) earlier obligations turned into
+// assumptions. Dropping assumptions is sound for "unsat" answers only.
+func (w *World) queryTextV(o *Obligation, wantModel, focused bool) string {
 	var sb strings.Builder
 	if wantModel {
 		sb.WriteString("(set-option :produce-models true)\n")
@@ -66,6 +73,15 @@ func (w *World) queryText(o *Obligation, wantModel bool) string {
 		}
 		if o.Cover && strings.Contains(f, "(forall ") {
 			continue // covers: dropping facts keeps "unsat => vacuous" valid and lets sat be found quickly
+		}
+		if focused && (strings.Contains(f, "(forall ") || strings.Contains(f, "(exists ")) {
+			tag := w.factTag[i]
+			if tag == "obl" {
+				continue
+			}
+			if strings.HasPrefix(tag, "inv:") && tag != o.Focus && (o.FocusSet == nil || !o.FocusSet[tag]) {
+				continue
+			}
 		}
 		sb.WriteString("(assert " + f + ")\n")
 	}
